@@ -236,7 +236,7 @@ func c05Shapes(c *chk.Ctx, rng interface{ Intn(int) int }) []*spec.Spec {
 func c05(args []string) {
 	c := chk.New("C05", "exploration", args)
 	c.Build(false)
-	c.Rule("generated non-streaming graphs (C04 generator incl. processes without out-ports, slow leaves; in every third run all commands print 300 kB to stdout/stderr) plus directed shapes for the driver logic (independent leaves, out-port-less process beside sink-terminated branches, RunTo on an out-port-less target, issue-#81 diamond with more tasks than buffer slots), plus close storms: command-free fan-ins of 2-8 one-file sources into one in-port, built and run 1500-3000 times inside one child process so that the upstreams close their connections at the same moment thousands of times (Run must return each time, every item must pass); oracle = the subject's own snapshot at the instant Run returns (listing, live children, monotonic stamp) vs. trace and reference, plus structural hang classification; further directed shapes: a dependent globber behind several slow tasks, RunTo / RunToProcs where a parameter source or a file source feeds one process inside and one outside the run set with more items than buffer slots. distinct_nontrivial = distinct (graph shape, configuration, interleaving signature) of returned runs with >= 2 tasks")
+	c.Rule("generated non-streaming graphs (C04 generator incl. processes without out-ports, slow leaves; in every third run all commands print 300 kB to stdout/stderr) plus directed shapes for the driver logic (independent leaves, out-port-less process beside sink-terminated branches, RunTo on an out-port-less target, issue-#81 diamond with more tasks than buffer slots), plus close storms: command-free fan-ins of 2-8 one-file sources into one in-port, built and run 1500-3000 times inside one child process so that the upstreams close their connections at the same moment thousands of times (Run must return each time, every item must pass); oracle = the subject's own snapshot at the instant Run returns (listing, live children, monotonic stamp) vs. trace and reference, plus structural hang classification; history 'run killed inside a task's finalization, run again without cleanup': if that Run returns, no temp directory exists and every file is final; further directed shapes: a dependent globber behind several slow tasks, RunTo / RunToProcs where a parameter source or a file source feeds one process inside and one outside the run set with more items than buffer slots. distinct_nontrivial = distinct (graph shape, configuration, interleaving signature) of returned runs with >= 2 tasks")
 	c.Assume("SCIPIPE_BUFSIZE >= 1", "two processes without out-ports are refused by the library up front; that refusal (exit != 0, no command executed) is accepted", "hang verdicts only from the structural classifier (Go runtime deadlock report or all goroutines blocked), never from elapsed time")
 	rng := c.Rand("c05")
 	type job struct {
@@ -378,6 +378,7 @@ func c05(args []string) {
 	})
 	closeStorm(c, "files")
 	closeStorm(c, "params")
+	c05interruptedRerun(c)
 	c.Finish()
 }
 
@@ -481,4 +482,75 @@ func imax(a, b int) int {
 		return a
 	}
 	return b
+}
+
+// c05interruptedRerun: "when it returns, no temp directory of the run is left behind" also for a run that starts on
+// top of what an interrupted run left: the first run is killed inside a task's finalization (declared output renamed,
+// temp directory with unmoved additional files still there), the workflow is run again without cleanup. The library
+// refuses such a re-run; if Run does return, everything must be finalized and no temp directory may exist.
+func c05interruptedRerun(c *chk.Ctx) {
+	type ij struct {
+		kind string
+		gof  bool
+		cp   gen.CrashPoint
+	}
+	var jobs []ij
+	for _, k := range []string{"extra", "twoout"} {
+		for _, g := range []bool{false, true} {
+			root := c.CaseDir()
+			s := gen.Topo(k, gen.ShapePlain, g, root, 2)
+			res := execSpec(c, root, s, Cfg{Buf: 128, Procs: 4}, gen.TopoBehav(k, evalRef(s, nil)), false, 0)
+			n := 0
+			for _, p := range gen.CrashPoints(res.Events) {
+				if p.Point == "fin.renamed" || p.Point == "fin.extra_moved" || p.Point == "fin.before_rmtemp" {
+					if c.Thorough() || n%3 == 1 {
+						jobs = append(jobs, ij{k, g, p})
+					}
+					n++
+				}
+			}
+			c.Drop(root)
+		}
+	}
+	run.Parallel(len(jobs), func(i int) {
+		j := jobs[i]
+		root := c.CaseDir()
+		defer c.Drop(root)
+		s := gen.Topo(j.kind, gen.ShapePlain, j.gof, root, 2)
+		exp := evalRef(s, nil)
+		bh := gen.TopoBehav(j.kind, exp)
+		exp = ref.Eval(&ref.Input{Spec: s, Files: sourcesOf(s), Behav: bh})
+		res := execSpec(c, root, s, Cfg{Buf: 128, Procs: 4, Crash: j.cp.Env()}, bh, false, 0)
+		if res.Signal == "" {
+			return
+		}
+		r2 := execSpec(c, root, s, Cfg{Buf: 128, Procs: 4}, bh, true, 1)
+		desc := map[string]interface{}{"topology": j.kind, "gofunc": j.gof, "crash": j.cp, "history": "run killed inside a task's finalization, run again without cleanup", "spec": s, "rerun_exit": r2.Exit}
+		if r2.Hang != "" {
+			if strings.HasPrefix(r2.Hang, "deadlock") {
+				c.Violation("hang-"+r2.Hang, "re-run on top of an interrupted run did not terminate: "+r2.Hang, desc)
+			} else {
+				c.Inconclusive("re-run: " + r2.Hang)
+			}
+			return
+		}
+		if !r2.Returned || r2.Exit != 0 {
+			c.Count("reruns_refused_on_leftovers", 1)
+			c.Nontrivial(fmt.Sprintf("interrupted-refused|%s|%v|%s#%d", j.kind, j.gof, j.cp.Point, j.cp.N))
+			return
+		}
+		var ps []mon.Problem
+		for _, l := range run.Snap(r2.Wd).Leftovers() {
+			ps = append(ps, mon.Problem{Sig: "returned-with-tempdir-left", Msg: "Run returned (exit 0) and " + l + " exists"})
+		}
+		ps = append(ps, mon.FilesMatch(run.Snap(r2.Wd), exp, preSet(s))...)
+		if len(ps) > 0 {
+			for _, sig := range sigSet(ps) {
+				desc["problems"] = mon.Summarize(ps, 10)
+				c.Violation(sig, fmt.Sprintf("killed at %s, re-run without cleanup returned with exit 0: %s", j.cp.Point, strings.Join(mon.Summarize(ps, 4), "\n  ")), desc)
+			}
+			return
+		}
+		c.Count("reruns_completed_cleanly", 1)
+	})
 }
